@@ -135,7 +135,7 @@ func GenParams(t *rapid.T, p *Pkg, op *Op, decls []ParamDecl) (reflect.Value, []
 // body it put on the wire.
 func captureClientBody(p *Pkg, op *Op, body reflect.Value, t *rapid.T) ([]byte, string) {
 	var got []byte
-	client, err := NewClient(p, "http://h.example"+p.BasePath, func(r *http.Request) (*http.Response, error) {
+	client, err := NewClient(p, "http://h.example"+escapedBase(p.BasePath), func(r *http.Request) (*http.Response, error) {
 		if r.Body != nil {
 			got, _ = io.ReadAll(r.Body)
 		}
@@ -210,7 +210,7 @@ func CheckC09(p *Pkg, e *Env, r *res.Result) {
 	}
 	var captured *http.Request
 	var capturedBody []byte
-	client, err := NewClient(p, "http://h.example"+p.BasePath, func(req *http.Request) (*http.Response, error) {
+	client, err := NewClient(p, "http://h.example"+escapedBase(p.BasePath), func(req *http.Request) (*http.Response, error) {
 		captured = req
 		if req.Body != nil {
 			capturedBody, _ = io.ReadAll(req.Body)
@@ -231,7 +231,7 @@ func CheckC09(p *Pkg, e *Env, r *res.Result) {
 		srv = httptest.NewServer(in.H)
 		defer srv.Close()
 		hc := srv.Client()
-		realClient, _ = NewClient(p, srv.URL+p.BasePath, func(req *http.Request) (*http.Response, error) { return hc.Do(req) })
+		realClient, _ = NewClient(p, srv.URL+escapedBase(p.BasePath), func(req *http.Request) (*http.Response, error) { return hc.Do(req) })
 	}
 	n := 400 * len(ops)
 	if !e.Quick() {
@@ -324,11 +324,16 @@ func CheckC09(p *Pkg, e *Env, r *res.Result) {
 				} else if b.IsValid() && strings.Contains(msg, "body does not validate") {
 					// does the body validate once nil slices / maps inside it are replaced by empty
 					// ones? then the only cause is a nil collection written as null (C07-F4)
-					if nb, nerr := safeMarshal(NormalizeNil(b).Interface()); nerr == nil {
-						if nt, derr := refmodel.DecodeJSON(nb); derr == nil {
-							if rb := p.Doc.ResolveRequestBody(op.Spec.RequestBody); rb != nil && rb.Content["application/json"] != nil && len(va.Validate(rb.Content["application/json"].Schema, nt)) == 0 {
-								kind = "invalid-wire:nil-collection-encoded-as-null"
+					if rb := p.Doc.ResolveRequestBody(op.Spec.RequestBody); rb != nil && rb.Content["application/json"] != nil {
+						if k := NilCollectionKind(b, func(nv reflect.Value) bool {
+							nb, nerr := safeMarshal(nv.Interface())
+							if nerr != nil {
+								return false
 							}
+							nt, derr := refmodel.DecodeJSON(nb)
+							return derr == nil && len(va.Validate(rb.Content["application/json"].Schema, nt)) == 0
+						}); k != "" {
+							kind = "invalid-wire:" + k
 						}
 					}
 				}
